@@ -51,6 +51,12 @@ func c17Gen(name string) func(string) string {
 			}
 			return s[1:] + s[:1]
 		}
+	case "fallback":
+		// one fixed alternative: once that is refused too, the generator keeps answering with it
+		return func(s string) string { return "fallbk" }
+	case "identity":
+		// an application that insists on its nick (it will ask for the same one until it is free)
+		return func(s string) string { return s }
 	case "table":
 		return func(s string) string {
 			if v, ok := map[string]string{"me": "me_alt", "me_alt": "me_alt2", "bot": "bot2", "bot2": "bot3", "newnick": "newnick2"}[s]; ok {
@@ -66,7 +72,7 @@ func genC17(t *rapid.T) *c17Scenario {
 	sc := &c17Scenario{
 		Nick:      rapid.SampledFrom([]string{"me", "bot", "Nick9", "z}", "a"}).Draw(t, "nick"),
 		Tracking:  rapid.Bool().Draw(t, "tracking"),
-		Generator: rapid.SampledFrom([]string{"default", "default", "underscore", "rotate", "table"}).Draw(t, "generator"),
+		Generator: rapid.SampledFrom([]string{"default", "default", "underscore", "rotate", "table", "fallback", "identity"}).Draw(t, "generator"),
 		PreRefuse: rapid.SampledFrom([]int{0, 0, 1, 2, 4, 0, 0, 1, 2, 4, 10, 12, 62}).Draw(t, "pre_refuse"), // (10 and 62: once round the last character's alphabet)
 		Welcome:   rapid.SampledFrom([]string{"same", "same", "other", "recased"}).Draw(t, "welcome"),
 		JoinChan:  rapid.Bool().Draw(t, "join_chan"),
@@ -87,7 +93,7 @@ func genC17(t *rapid.T) *c17Scenario {
 		cur = c17SwapCase(cur)
 	}
 	if rapid.IntRange(0, 2).Draw(t, "swap_generator") == 0 {
-		sc.SwapGen = rapid.SampledFrom([]string{"default", "underscore", "rotate", "table"}).Draw(t, "swapped_generator")
+		sc.SwapGen = rapid.SampledFrom([]string{"default", "underscore", "rotate", "table", "fallback", "identity"}).Draw(t, "swapped_generator")
 		gen = c17Gen(sc.SwapGen)
 	}
 	prev := sc.Nick
